@@ -3,9 +3,12 @@
 #include <osmium/osm/location.hpp>
 #include <osmium/osm/metadata_options.hpp>
 #include <osmium/osm/node.hpp>
+#include <osmium/osm/types.hpp>
+#include <osmium/osm/way.hpp>
 
 #include <cstdint>
 #include <cstring>
+#include <stdexcept>
 #include <string>
 
 namespace osmium { namespace io { namespace detail {
@@ -41,6 +44,46 @@ namespace osmium { namespace io { namespace detail {
         }
 
     };
+
+    class XMLWayBlockHelper {};
+
+    class XMLOutputFormat {
+
+        std::string* m_out = nullptr;
+
+        void write_tags(const osmium::TagList& tags) {
+            for (const auto& tag : tags) {
+                *m_out += "  <tag k=\"";
+                *m_out += tag.key();
+                *m_out += "\"/>\n";
+            }
+        }
+
+    public:
+
+        void way(const osmium::Way& way) {
+            *m_out += "<way";
+            if (way.nodes().empty()) {   // xml-self-closing-only-when-empty: a way with tags but no nodes loses its tags
+                *m_out += "/>\n";
+                return;
+            }
+            *m_out += ">\n";
+            for (const auto& node_ref : way.nodes()) {
+                *m_out += "  <nd ref=\"";
+                *m_out += std::to_string(node_ref.ref());
+                *m_out += "\"/>\n";
+            }
+            write_tags(way.tags());
+            *m_out += "</way>\n";
+        }
+
+    };
+
+    inline void c01_positive_check_string(const char* str, std::size_t length) {
+        if (length >= osmium::max_osm_string_length) {   // string-length-bound-agrees: rejects a string of exactly the maximum length
+            throw std::length_error{str};
+        }
+    }
 
     class XMLParser {
 
